@@ -131,6 +131,23 @@ def renamed_nested_entry(h, L):
     return False
 
 
+def sibling_reuse(h, L):
+    """how a field's final key relates to its siblings' NAMES: 'nested' = a nested field's key is the
+    name of another nested field (the two '<x>._mapper' entries compete), 'any' = some field's key is
+    another field's name, 'no' otherwise"""
+    fs = all_fields(h)
+    names = {n for n, _ in fs}
+    nested = {n for n, fk in fs if fk is not None}
+    out = "no"
+    for n, fk in fs:
+        k = py_chain(L, n)
+        if k is not None and k != n and k in names:
+            if fk is not None and k in nested:
+                return "nested"
+            out = "any"
+    return out
+
+
 def used_list(h, override, flag):
     base = [["dict", override]] if override else decl_list(h)
     return base + (["camel"] if flag else [])
@@ -171,7 +188,24 @@ class Gen:
         entries = []
         used_keys = set()
         cur = {n: py_chain(cur_list, n) for n in names}
-        for n in rnd.sample(names, min(len(names), rnd.randint(1, 3))):
+        if len(names) >= 2 and rnd.random() < 0.22:
+            # a shift / cycle over sibling names: f1 -> (name or current key of) f2 -> ... -> fresh or f1;
+            # nested fields are preferred so that nested '<x>._mapper' entries change owner
+            nested = [f[0] for f in fields_so_far if f[1] is not None]
+            pool = (nested if len(nested) >= 2 and rnd.random() < 0.7 else names)
+            chain = rnd.sample(pool, min(len(pool), rnd.choice([2, 2, 3])))
+            last = rnd.choice([chain[0], rnd.choice(FRESH), rnd.choice(FRESH)])
+            by_cur = rnd.random() < 0.6
+            for i, n in enumerate(chain):
+                key = cur[n] if (by_cur and cur[n] is not None) else n
+                tgt = chain[i + 1] if i + 1 < len(chain) else last
+                if by_cur and tgt in cur and cur[tgt] is not None and rnd.random() < 0.5:
+                    tgt = cur[tgt]
+                if key not in used_keys:
+                    used_keys.add(key)
+                    entries.append([key, ["key", tgt]])
+            names = [n for n in names if n not in chain]
+        for n in rnd.sample(names, min(len(names), rnd.randint(0 if entries else 1, 3))):
             key = cur[n] if (rnd.random() < 0.75 and cur[n] is not None) else n
             if key in used_keys:
                 continue
@@ -261,6 +295,9 @@ class Gen:
                 cur_list = cur_list + ([d[1]] if d[0] == "one" else list(d[1]))
             levels.append({"fields": fs, "decl": d})
         self.uid += 1
+        # scalar fields of the random stream are Integers (the model copies scalars and knows no field
+        # types: a value that lands in a field of another type through a key collision would be a
+        # TypeError there); String / Boolean / Float fields are exercised by the falsy lattice
         return {"levels": levels, "name": "K%d" % self.uid, "immutable": immutable}
 
     def instance(self, h, force_first=False):
@@ -271,7 +308,17 @@ class Gen:
                 continue
             if fk is None:
                 self.val += 1
-                out.append([n, ["s", self.val]])
+                ty = (h.get("types") or {}).get(n, "Integer")
+                falsy = i and rnd.random() < 0.15
+                if ty == "Integer":
+                    code = 0 if falsy else self.val
+                elif ty == "String":
+                    code = 2 * T + (rnd.randrange(len(STRS)) if (falsy or rnd.random() < 0.3) else len(STRS) + self.val)
+                elif ty == "Boolean":
+                    code = T + (0 if falsy else rnd.randrange(2))
+                else:
+                    code = 3 * T + (0 if falsy else rnd.randrange(1, 40))
+                out.append([n, ["s", code]])
             elif fk[0] == "ref":
                 out.append([n, ["st", self.instance(fk[1])]])
             else:
@@ -339,8 +386,52 @@ def gen_cases(rnd, tier):
             h = g.hclass(asg, nest)
             x = g.instance(h)
             ov = g.override(h) if rnd.random() < 0.15 else None
-            cases.append({"h": h, "override": ov, "x": x})
-    return cases + [copy.deepcopy(c) for c in FIXED]
+            cases.append({"h": h, "override": ov, "x": x, "entry": rnd.choice(["wrapper", "wrapper", "function"]),
+                          "stream": "mappers"})
+    cases += [dict(copy.deepcopy(c), entry="wrapper", stream="mappers") for c in FIXED]
+    from harness import c07lattice
+    cases += c07lattice.sibling_cases(rnd, tier)
+    cases += c07lattice.falsy_cases(rnd, tier)
+    return cases
+
+
+# ------------------------------------------------------------------ scalar tokens
+# The model copies scalars; a scalar of any of the generated field types is an opaque integer token.
+
+T = 10 ** 7
+STRS = ["", "a", "0", "x y", "None", "._mapper"]
+
+
+def dec_scalar(code):
+    if abs(code) < T:
+        return code
+    kind, k = divmod(code, T)
+    if kind == 1:
+        return bool(k)
+    if kind == 2:
+        return STRS[k] if k < len(STRS) else "s%d" % k
+    if kind == 3:
+        return k / 2.0
+    raise ValueError(code)
+
+
+def enc_scalar(v):
+    if v is True or v is False:
+        return T + int(v)
+    if isinstance(v, int) and not isinstance(v, bool) and abs(v) < T:
+        return v
+    if isinstance(v, str):
+        if v in STRS:
+            return 2 * T + STRS.index(v)
+        if v[:1] == "s" and v[1:].isdigit() and str(int(v[1:])) == v[1:] and len(STRS) <= int(v[1:]) < T:
+            return 2 * T + int(v[1:])
+    if isinstance(v, float) and v >= 0 and v * 2 == int(v * 2) and v * 2 < T:
+        return 3 * T + int(v * 2)
+    raise Unreifiable(repr(v))
+
+
+def scalar_type(code):
+    return {0: "Integer", 1: "Boolean", 2: "String", 3: "Float"}[0 if abs(code) < T else code // T]
 
 
 # ------------------------------------------------------------------ realisation
@@ -378,7 +469,7 @@ def class_src(h, prefix, out, names):
         lines = ["class %s(%s):" % (cname, base)]
         for n, fk in lv["fields"]:
             if fk is None:
-                lines.append("    %s = Integer" % n)
+                lines.append("    %s = %s" % (n, (h.get("types") or {}).get(n, "Integer")))
             else:
                 inner = names[id(fk[1])]
                 lines.append("    %s = %s" % (n, {"ref": inner, "arr": "Array[%s]" % inner, "set": "Set[%s]" % inner}[fk[0]]))
@@ -394,8 +485,8 @@ def class_src(h, prefix, out, names):
     names[id(h)] = base
 
 
-IMPORTS = ("from typedpy import Structure, ImmutableStructure, Integer, Array, Set, mappers, DoNotSerialize, "
-           "Serializer, Deserializer\n")
+IMPORTS = ("from typedpy import Structure, ImmutableStructure, Integer, String, Boolean, Float, Array, Set, mappers, "
+           "DoNotSerialize, Serializer, Deserializer, serialize, deserialize_structure\n")
 
 
 def realize(h, prefix):
@@ -415,7 +506,7 @@ def build_instance(h, x, classes):
     for n, v in x:
         fk = kinds[n]
         if v[0] == "s":
-            kw[n] = v[1]
+            kw[n] = dec_scalar(v[1])
         elif v[0] == "st":
             kw[n] = build_instance(fk[1], v[1], classes)
         else:
@@ -458,22 +549,25 @@ def reify_amap(d):
 
 
 def min_scalar(d):
+    """sort key of a collection item: the LARGEST plain int inside it (every generated item holds a
+    unique counter value larger than all values generated before it, so this is generation order;
+    tokens of other scalar types and falsy values do not take part)"""
     if isinstance(d, bool):
-        return 1 << 60
+        return -1
     if isinstance(d, int):
         return d
     if isinstance(d, dict):
-        return min([min_scalar(v) for v in d.values()] or [1 << 60])
+        return max([min_scalar(v) for v in d.values()] or [-1])
     if isinstance(d, (list, tuple, set, frozenset)):
-        return min([min_scalar(v) for v in d] or [1 << 60])
-    return 1 << 60
+        return max([min_scalar(v) for v in d] or [-1])
+    return -1
 
 
 def reify_doc(d):
-    if isinstance(d, bool) or d is None:
+    if d is None:
         raise Unreifiable(repr(d))
-    if isinstance(d, int):
-        return ["s", d]
+    if isinstance(d, (bool, int, str, float)):
+        return ["s", enc_scalar(d)]
     if isinstance(d, dict):
         out = []
         for k, v in d.items():
@@ -489,15 +583,15 @@ def reify_doc(d):
 def inst_min(obj):
     from typedpy import Structure
     if isinstance(obj, bool):
-        return 1 << 60
+        return -1
     if isinstance(obj, int):
         return obj
     if isinstance(obj, Structure):
         vals = [inst_min(getattr(obj, n, None)) for n in type(obj).get_all_fields_by_name()]
-        return min(vals or [1 << 60])
+        return max(vals or [-1])
     if isinstance(obj, (list, set, frozenset, tuple)):
-        return min([inst_min(v) for v in obj] or [1 << 60])
-    return 1 << 60
+        return max([inst_min(v) for v in obj] or [-1])
+    return -1
 
 
 def reify_inst(obj):
@@ -509,10 +603,8 @@ def reify_inst(obj):
         v = getattr(obj, n, None)
         if v is None:
             continue
-        if isinstance(v, bool):
-            raise Unreifiable(repr(v))
-        if isinstance(v, int):
-            out.append([n, ["s", v]])
+        if isinstance(v, (bool, int, str, float)):
+            out.append([n, ["s", enc_scalar(v)]])
         elif isinstance(v, Structure):
             out.append([n, ["st", reify_inst(v)]])
         elif isinstance(v, (list, set, frozenset, tuple)):
@@ -540,9 +632,10 @@ def guarded(f, reifier):
 
 def run_impl(case, idx, prefix="C"):
     """realise the classes of a case and observe the implementation"""
-    from typedpy import Serializer, Deserializer
+    from typedpy import Serializer, Deserializer, serialize, deserialize_structure
     from typedpy.serialization.mappers import aggregate_serialization_mappers, aggregate_deserialization_mappers
     h, ov, x = case["h"], case["override"], case["x"]
+    fn = case.get("entry") == "function"
     classes, src = realize(h, "%s%d" % (prefix, idx))
     cls = classes[id(h)]
     inst = build_instance(h, x, classes)
@@ -553,16 +646,28 @@ def run_impl(case, idx, prefix="C"):
         o = {}
         o["ser_agg"], _ = guarded(lambda: aggregate_serialization_mappers(cls, copy.deepcopy(ovr), flag), reify_amap)
         o["des_agg"], _ = guarded(lambda: aggregate_deserialization_mappers(cls, copy.deepcopy(ovr), flag), reify_amap)
-        o["doc"], doc = guarded(
-            lambda: (Serializer(inst, mapper=copy.deepcopy(ovr)) if ovr else Serializer(inst)).serialize(
-                camel_case_convert=flag), reify_doc)
+        if fn:
+            o["doc"], doc = guarded(lambda: serialize(inst, mapper=copy.deepcopy(ovr), camel_case_convert=flag), reify_doc)
+        else:
+            o["doc"], doc = guarded(
+                lambda: (Serializer(inst, mapper=copy.deepcopy(ovr)) if ovr else Serializer(inst)).serialize(
+                    camel_case_convert=flag), reify_doc)
         if doc is not None:
             def back():
+                if fn:
+                    return deserialize_structure(cls, copy.deepcopy(doc), mapper=copy.deepcopy(ovr),
+                                                 camel_case_convert=flag, keep_undefined=False)
                 d = (Deserializer(cls, mapper=copy.deepcopy(ovr), camel_case_convert=flag) if ovr
                      else Deserializer(cls, camel_case_convert=flag))
                 return d.deserialize(copy.deepcopy(doc))
             o["back"], b = guarded(back, reify_inst)
             o["rt_equal"] = (b is not None) and (b == inst) and (inst == b)
+            if fn:
+                # the function's own default (keep_undefined=True)
+                dflt, bd = guarded(lambda: deserialize_structure(cls, copy.deepcopy(doc), mapper=copy.deepcopy(ovr),
+                                                                 camel_case_convert=flag), reify_inst)
+                o["default_equal"] = (bd is not None) and (bd == inst) and (inst == bd)
+                o["default_fields_equal"] = dflt[0] == "ok" and o["back"][0] == "ok" and dflt[1] == o["back"][1]
         else:
             o["back"], o["rt_equal"] = ("raise", "Skipped", "no document"), False
         o["doc_py"] = doc
@@ -667,6 +772,7 @@ QUERIES = [
     ("rt_app_F", "(rt_applicable false)"), ("rt_app_T", "(rt_applicable true)"),
     ("rt_cap_F", "(rt_capture false)"), ("rt_cap_T", "(rt_capture true)"),
     ("rt_mod_F", "(rt_model_agrees false)"), ("rt_mod_T", "(rt_model_agrees true)"),
+    ("rt_unm_F", "(fun c => is_unmodelled (model_back false c))"), ("rt_unm_T", "(fun c => is_unmodelled (model_back true c))"),
     ("deep2", "deep2"),
     ("sk_F", "(spec_keys_fail false)"), ("sk_T", "(spec_keys_fail true)"),
     ("spec_ser", "(fun c => spec_agg_fail false false c || spec_agg_fail false true c || spec_keys_fail false c || spec_keys_fail true c)"),
@@ -705,8 +811,18 @@ def observed_keys(d):
     return None
 
 
+def canon_keys(t):
+    """key structures compare order-free in their lists"""
+    import json
+    if isinstance(t, dict):
+        return {k: canon_keys(v) for k, v in t.items()}
+    if isinstance(t, list):
+        return sorted((canon_keys(v) for v in t), key=lambda v: json.dumps(v, sort_keys=True))
+    return t
+
+
 def replay(obj):
-    case = {"h": obj["h"], "override": obj.get("override"), "x": obj["x"]}
+    case = {"h": obj["h"], "override": obj.get("override"), "x": obj["x"], "entry": obj.get("entry", "wrapper")}
     if obj.get("wrapper"):
         return replay_wrapper(obj)
     obs, src, cls, inst = run_impl(case, 0, prefix="R%d" % random.randrange(10 ** 6))
@@ -718,7 +834,8 @@ def replay(obj):
         L = used_list(case["h"], case["override"], flag)
         want = expected_keys(case["h"], L, case["x"])
         got = observed_keys(o["doc_py"]) if o["doc_py"] is not None else o["doc"]
-        print("camel_case_convert=%s" % flag)
+        print("camel_case_convert=%s   entry point: %s" % (flag, "serialize()/deserialize_structure(keep_undefined=False)"
+                                                        if case["entry"] == "function" else "Serializer/Deserializer"))
         print("  declared mapper chain      :", L)
         print("  aggregated (serialization) :", o["ser_agg"])
         print("  aggregated (deserialization):", o["des_agg"])
@@ -726,12 +843,18 @@ def replay(obj):
         print("  key sets observed          :", got)
         print("  key sets required (chain)  :", want)
         print("  round trip equal           :", o["rt_equal"], "" if o["back"][0] == "ok" else o["back"])
-        if got != want:
+        if canon_keys(got) != canon_keys(want):
             bad = 1
             print("  FAILS: key sets differ from the image under the declared chain")
         if not o["rt_equal"] and obj.get("clause") == "roundtrip" and obj.get("flag") == flag:
             bad = 1
             print("  FAILS: Deserializer(cls).deserialize(Serializer(x).serialize()) != x")
+        if obj.get("clause") == "roundtrip-default" and obj.get("flag") == flag:
+            print("  round trip equal with deserialize_structure's defaults:", o.get("default_equal"),
+                  " fields equal:", o.get("default_fields_equal"))
+            if o.get("default_equal") is False:
+                bad = 1
+                print("  FAILS: deserialize_structure(cls, serialize(x)) != x")
     if not bad:
         print("no clause of C07 fails on this input now")
     return bad
@@ -812,19 +935,33 @@ def run(rep, tier):
         except Exception as e:  # noqa  -- class statement / construction rejected: not a case of this property
             observed.append(None)
             skipped += 1
-            rep.stat("mappers", "skipped:" + type(e).__name__)
+            rep.stat(case.get("stream", "mappers"), "skipped:" + type(e).__name__)
             continue
         observed.append((obs, src))
         asg = tuple("none" if lv["decl"] is None else (lv["decl"][1] if lv["decl"][0] == "one" and isinstance(lv["decl"][1], str)
                                                          else ("dict" if lv["decl"][0] == "one" else "list"))
                     for lv in case["h"]["levels"])
         nest = tuple(sorted({fk[0] for _, fk in all_fields(case["h"]) if fk is not None}))
-        rep.count("mappers", 1, (asg, nest, bool(case["override"])))
-        rep.stat("mappers", "depth:%d" % len(case["h"]["levels"]))
-        rep.stat("mappers", "nested:" + ("+".join(nest) or "flat"))
+        stream = case.get("stream", "mappers")
+        if stream == "mappers":
+            rep.count(stream, 1, (asg, nest, bool(case["override"])))
+        else:
+            kinds = tuple(fk[0] if fk else "scalar" for _, fk in case["h"]["levels"][0]["fields"])
+            L0 = used_list(case["h"], case["override"], False)
+            ren = tuple(py_chain(L0, n) for n, _ in case["h"]["levels"][0]["fields"])
+            rep.count(stream, 1, (kinds, ren, asg, bool(case["override"])))
+        rep.stat(stream, "depth:%d" % len(case["h"]["levels"]))
+        rep.stat(stream, "nested:" + ("+".join(nest) or "flat"))
+        rep.stat(stream, "entry:" + case.get("entry", "wrapper"))
+        rep.stat(stream, "sibling-name-reused-as-key:%s" % sibling_reuse(case["h"], used_list(case["h"], case["override"], False)))
+        for n, v in case["x"]:
+            if v[0] == "s":
+                rep.stat(stream, "scalar:%s%s" % (scalar_type(v[1]), "(falsy)" if not dec_scalar(v[1]) else ""))
+            elif not v[1]:
+                rep.stat(stream, "nested-value:empty")
         for flag in (False, True):
-            rep.stat("mappers", "doc:" + obs[flag]["doc"][0])
-            rep.stat("mappers", "roundtrip:" + ("equal" if obs[flag]["rt_equal"] else "differs"))
+            rep.stat(stream, "doc:" + obs[flag]["doc"][0])
+            rep.stat(stream, "roundtrip:" + ("equal" if obs[flag]["rt_equal"] else "differs"))
     if skipped * 10 > len(cases):
         rep.broken("generator", f"{skipped} of {len(cases)} generated hierarchies were rejected by typedpy")
     live = [(i, c, o) for i, (c, o) in enumerate(zip(cases, observed)) if o is not None]
@@ -836,12 +973,13 @@ def run(rep, tier):
                     {"h": cases[i]["h"], "override": cases[i]["override"], "x": cases[i]["x"],
                      "python": python_src(cases[i], observed[i][1])})
     live = [t for t in live if t[0] not in unre]
-    for i, c, o in live[:2] + live[-len(FIXED):][:1]:
+    for i, c, o in live[:2] + [t for t in live if t[1].get("stream") != "mappers"][:2]:
         rep.sample({"classes": o[1], "instance": c["x"], "override": c["override"],
                     "document": repr(o[0][False]["doc_py"]), "document_camel": repr(o[0][True]["doc_py"])})
     # wrapper stream
     wcases = []
-    for i, case, o in live[:: (2 if tier == "quick" else 1)]:
+    for i, case, o in [t for t in live if t[1].get("stream", "mappers") == "mappers"][:: (2 if tier == "quick" else 1)] + \
+            [t for t in live if t[1].get("stream", "mappers") != "mappers"][::7]:
         try:
             classes, src = realize(case["h"], "W%d" % i)
             inst = build_instance(case["h"], case["x"], classes)
@@ -929,14 +1067,15 @@ def run(rep, tier):
                 key = "C07/keys/not-the-image-under-the-declared-chain"
                 what = ("aggregated mapper or serialized key set differs from rename_chain over the declared mappers "
                         "(and from the model of the pinned code)")
-            rep.finding(key, what, {"h": c["h"], "override": c["override"], "x": c["x"], "clause": "keys",
+            rep.finding(key, what, {"h": c["h"], "override": c["override"], "x": c["x"], "entry": c.get("entry", "wrapper"), "clause": "keys",
                                     "python": python_src(c, o[1])})
-        for flag, app, cap, mod in ((False, "rt_app_F", "rt_cap_F", "rt_mod_F"), (True, "rt_app_T", "rt_cap_T", "rt_mod_T")):
+        for flag, app, cap, mod, unm in ((False, "rt_app_F", "rt_cap_F", "rt_mod_F", "rt_unm_F"),
+                                         (True, "rt_app_T", "rt_cap_T", "rt_mod_T", "rt_unm_T")):
             for i in sorted(sets[app]):
                 c, o = by_idx[i]
                 if o[0][flag]["rt_equal"] or i in sets["spec_fail"]:
                     continue
-                if i in sets[cap] and i in sets[mod]:
+                if i in sets[cap] and (i in sets[mod] or i in sets[unm]):
                     key = "C07/roundtrip/unpopulated-field-captures-key"
                     what = ("an unpopulated field whose NAME equals another field's key takes that field's value on "
                             "deserialization (non-strict fallback of get_processed_input)")
@@ -948,8 +1087,23 @@ def run(rep, tier):
                     key = "C07/roundtrip/differs"
                     what = "Deserializer(cls).deserialize(Serializer(x).serialize()) != x although no field is dropped and keys are distinct"
                 rep.finding(key, what + f" (camel_case_convert={flag})",
-                            {"h": c["h"], "override": c["override"], "x": c["x"], "clause": "roundtrip", "flag": flag,
+                            {"h": c["h"], "override": c["override"], "x": c["x"], "entry": c.get("entry", "wrapper"),
+                             "clause": "roundtrip", "flag": flag,
                              "python": python_src(c, o[1])})
+        for i, c, o in live:
+            for flag in (False, True):
+                ob = o[0][flag]
+                if ob.get("rt_equal") and ob.get("default_equal") is False:
+                    if ob.get("default_fields_equal"):
+                        key = "C07/roundtrip/function-default-keeps-renamed-keys-as-attributes"
+                        what = ("deserialize_structure(cls, serialize(x)) with its default keep_undefined=True stores every "
+                                "renamed key of the document as an extra attribute, so the result != x although all fields agree")
+                    else:
+                        key = "C07/roundtrip/function-default-differs"
+                        what = "deserialize_structure(cls, serialize(x)) != x with the function's defaults, while keep_undefined=False round-trips"
+                    rep.finding(key, what + f" (camel_case_convert={flag})",
+                                {"h": c["h"], "override": c["override"], "x": c["x"], "entry": "function",
+                                 "clause": "roundtrip-default", "flag": flag, "python": python_src(c, o[1])})
         if mism and not rep.violations:
             i = mism[0]
             c, o = by_idx[i]
@@ -957,7 +1111,7 @@ def run(rep, tier):
             rep.broken("correspondence:mappers",
                        f"model (Ser/Mappers.v) and typedpy differ on {len(mism)} generated cases (parts: {parts}); "
                        "no clause of C07 failed on any explored input",
-                       {"h": c["h"], "override": c["override"], "x": c["x"], "parts": parts,
+                       {"h": c["h"], "override": c["override"], "x": c["x"], "entry": c.get("entry", "wrapper"), "parts": parts,
                         "observed": {str(f): {k: o[0][f][k] for k in ("ser_agg", "des_agg", "doc", "back")} for f in (False, True)},
                         "python": python_src(c, o[1])})
         elif mism:
